@@ -13,3 +13,12 @@ mod response;
 #[cfg(test)]
 #[cfg(not(target_arch = "wasm32"))]
 pub mod tests;
+
+/// Verification hooks: re-exports of the private pure-math modules. Compiled only with
+/// `--cfg wwcore_verif`; adds nothing to normal builds.
+#[cfg(wwcore_verif)]
+pub mod verif_hooks {
+    pub use crate::error::ContractError;
+    pub use crate::helpers::*;
+    pub use crate::math::*;
+}
